@@ -20,7 +20,8 @@ CONSTANTS
   Paces = @@PACES@@
   DevSpin = FALSE
   DevNoUnblock = FALSE
+  DevAliasFlush = FALSE
 INIT UInit
 NEXT UNext
-INVARIANTS UTypeOK UDatagrams UComplete UCompleteAny UEncoded UFlushed UBuf
+INVARIANTS UTypeOK UDatagrams UComplete UCompleteAny UEncoded UFlushed UMutex UBuf
 CHECK_DEADLOCK FALSE
